@@ -335,6 +335,11 @@ def check_c19(scn):
             scn.fail("stop-terminates", {"what": "stop-exceeds-bound", "cluster": sig_mode},
                      f"member c{i}: stop() took {dur:.3f}s of virtual time; bound from the configured timeouts is {bound:.1f}s (cluster mode {mode})")
         if i in hung:
+            # stop() returned, yet the application's own call that was pending when stop() ran (getone()/getmany()) has neither
+            # returned nor raised by the end of the run
+            scn.fail("stop-api", {"what": "call-pending-after-stop"},
+                     f"member c{i}: stop() returned after {dur:.3f}s but the application call that was pending when it was issued is still "
+                     f"blocked {p.get('stop_bound', 30.0)} virtual seconds later")
             continue
         left = [x for x in loop.live_things(f"c{i}")]
         if left:
